@@ -307,3 +307,74 @@ def c16_mark_as_fetched_step(ctx, v):
         n += 0 if bad else 1
     v.covers_total += 1
     v.covers_sat += 1 if n else 0
+
+
+def c16_select_orders_unsorted_queue(ctx, v):
+    """get_blocks_to_fetch_per_peer on a queue that is NOT in height order (entries pushed by
+    different build_peer_block_picture calls: a lower block announced late, a failed fetch
+    re-queued next to a lower announcement). Queue of 2..=3 entries (thorough 4), ids arbitrary and
+    pairwise distinct in any order, statuses / retry counts / batch size (1..=3) symbolic, and
+    `sort_by` executed for real (bubble network calling the code's own comparison closure):
+      the returned list is in increasing height order, every returned block was a Queued entry of
+      the queue, and afterwards #Fetching <= batch size."""
+    body = ctx.body(r"blockchain_sync_state::<impl at [^>]*>::get_blocks_to_fetch_per_peer$")
+    nmax = 3 if ctx.tier == "quick" else 4
+    for n in range(2, nmax + 1):
+        ex = ctx.executor(loop_bound=n + 2, inline="auto", max_paths=40000)
+        ex.sort_real = True
+        state, entries, ids, sts, rts, peer, batch, pre, fetching_pre = _state(ctx, ex, n)
+        st = S.State()
+        # drop the "already sorted" precondition, keep everything else; ids pairwise distinct
+        keep = [p for p in pre if not any(p.eq(z3.ULT(ids[i - 1].bv, ids[i].bv)) for i in range(1, n))]
+        st.pc.extend(keep + [ids[i].bv != ids[j].bv for i in range(n) for j in range(i)])
+        outs = ex.run(body, [S.Ref(S.Cell(state), (), True)], st)
+        v.paths += len(outs)
+        seen = unsorted_seen = 0
+        one = lambda c: z3.If(c, z3.BitVecVal(1, 64), z3.BitVecVal(0, 64))
+        for o in outs:
+            if o.kind in ("unsupported", "unwound", "path-limit"):
+                return v.undecided("n=%d %s %s" % (n, o.kind, o.info))
+            if o.kind == "panic":
+                L.report_panic(v, ex, o, "n=%d: panic reachable: %s" % (n, o.info))
+                continue
+            if o.kind != "return":
+                continue
+            if any(e[0] == "assume-sorted" for e in o.state.events):
+                return v.undecided("n=%d: the sort ran under the sortedness assumption" % n)
+            post = o.state.frames[0].locals["_1"].v.cell.v
+            pdeq = post.fields[ctx.field_index("BlockchainSyncState", "blocks_to_fetch")].entries[0][2].v
+            post_d = []
+            for e in pdeq.items:
+                dd = ex.discr_of(e.fields[ctx.field_index("BlockData", "status")])
+                post_d.append(dd.bv if isinstance(dd, S.I) else z3.BitVecVal(dd, 64))
+            fetching_post = sum([one(d == FETCHING) for d in post_d], z3.BitVecVal(0, 64))
+            ret = o.value
+            if not isinstance(ret, S.MapV):
+                return v.undecided("n=%d: returned map not modelled (%s)" % (n, type(ret).__name__))
+            sel = ret.entries[0][2].v.items if ret.entries else []
+            checks = [("more blocks in flight than the batch size allows", z3.UGT(fetching_post, batch.bv))]
+            for a in range(len(sel)):
+                sid = sel[a].fields[1]
+                checks.append(("a returned block was not a Queued entry of the queue", z3.Not(z3.Or(*[z3.And(sts[i].discr.bv == Q, ids[i].bv == sid.bv) for i in range(n)]))))
+                if a:
+                    checks.append(("blocks are requested out of height order (a lower block after a higher one)", z3.UGT(sel[a - 1].fields[1].bv, sid.bv)))
+            for what, bad in checks:
+                r, m = ex.model_for(o.pc, bad)
+                v.queries += 1
+                if r == z3.sat:
+                    v.sat += 1
+                    ev = lambda x: m.eval(x, model_completion=True).as_long()
+                    v.fail("queue of %d in arrival order: %s" % (n, what),
+                           dict(batch_size=ev(batch.bv), queue=[dict(id=ev(ids[i].bv), status=["Queued", "Fetching", "Fetched", "Failed"][ev(sts[i].discr.bv) % 4]) for i in range(n)],
+                                returned_ids=[ev(x.fields[1].bv) for x in sel]))
+                elif r == z3.unsat:
+                    v.unsat += 1
+                else:
+                    return v.undecided("n=%d solver %s on: %s" % (n, r, what))
+            seen += 1
+            if len(sel) >= 2 and not unsorted_seen:
+                r, m = ex.model_for(o.pc, z3.Or(*[z3.UGT(ids[i - 1].bv, ids[i].bv) for i in range(1, n)]))
+                v.queries += 1
+                unsorted_seen = 1 if r == z3.sat else 0
+        v.covers_total += 1
+        v.covers_sat += 1 if (seen and unsorted_seen) else 0
